@@ -262,6 +262,40 @@ XNOTE = (
     "except after a write went through a damaged resolution. find-symbol of an unexported symbol that was unbound again may "
     "report nil (slip drops the record) — accepted. ")
 
+YIDS = ["", "C13-export-per-cell", "C13-find-symbol-other-package", "C13-defparameter-qualified", "C13-unintern-inherited",
+        "C13-unintern-keeps-function", "C13-do-external-inherited", "C13-defconstant-unbound-record", "C13-intern-status",
+        "C13-exports-list-stale", "C13-locked-export", "C13-locked-rename", "C13-locked-defun-new", "C13-locked-unbind-local",
+        "C13-keyword-setq", "C13-import-one-record", "C13-class-unuse-stale", "C13-class-clobbers-user", "C13-locked-fmakunbound",
+        "C13-boundp-qualified", "C13-import-unexported-function"]
+# number of variants per scenario of VerifC13XApi
+YNV = [4, 6, 3, 4, 5, 4, 3, 21, 4, 5, 4, 8]
+# (scenario, variant) pairs in which the expectations tagged with a finding fail on the unchanged tree
+YWIT = {1: [(0, 0), (0, 3)], 2: [(1, 0), (1, 1)], 3: [(2, 0)], 4: [(3, 0)], 5: [(3, 1)], 6: [(4, 1)], 7: [(5, 1), (5, 2)],
+        8: [(1, 3)], 9: [(6, 0), (6, 1)], 10: [(7, 0), (7, 1), (7, 18)], 11: [(7, 2)], 12: [(7, 3), (7, 17)],
+        13: [(7, 8), (7, 9)], 14: [(8, 0), (8, 1)], 15: [(10, 0), (10, 2)], 16: [(11, 2), (11, 3)], 17: [(11, 4)],
+        18: [(7, 7)], 19: [(2, 2)], 20: [(10, 1)]}
+YNOTE = (
+    "EXTENSION (zz_verif_c13_ext2.go): scripted scenarios (scenario, variant) of real Lisp forms on three fresh packages, values "
+    "SYMBOLIC (y0, y1, ...), every expectation written next to the form from the Common Lisp package rules / the property "
+    "statement. Scenarios: 0 a name that is variable and function (export is per symbol; 4 orders of defvar/defun/export); 1 "
+    "find-symbol and intern status (:internal :external :inherited nil) for variables and functions, with a package argument from "
+    "each of the three packages and from inside; 2 defparameter/defvar/setq of p::name, boundp/fboundp/symbol-value/funcall/apply "
+    "of qualified names; 3 unintern (inherited, own with function, exported with users, with package argument); 4 do-symbols, "
+    "do-external-symbols, do-all-symbols, find-all-symbols, package-use-list / package-used-by-list through use, use again, "
+    "unuse, use; 5 defconstant (setq/defvar/let/redefinition rejected, exported constant in a user, placeholder and unbound "
+    "records, p::name); 6 Package.Exports and describe after unexport / repeated export; 7 locked package: 21 operations "
+    "(export, unexport, rename-package, defun new/redefine, defvar, defparameter, defconstant, makunbound, fmakunbound at home "
+    "and in a user, unintern, use-package, unuse-package, delete-package, qualified writes) must be rejected (makunbound/"
+    "fmakunbound may return) and 16 observations of the tables (home and user, plain, p:name, p::name) must be unchanged, then "
+    "unlock-package; 8 keywords (evaluate to themselves; setq/defvar rejected; symbol-value, keywordp, intern/find-symbol in "
+    "keyword); 9 delete-package (in use: rejected; user deleted: forgotten by the used package; *package* itself) and "
+    "rename-package; 10 Package.Import called through the Go API (exported / unexported variable and function, name that is "
+    "both, follows later setq, survives unuse-package, not passed on to users, unknown name); 11 classes per package "
+    "(defclass and defflavor): find-class from an unrelated package, after use-package, after unuse-package, through a chain of "
+    "users, the user's own class of the same name, class defined after the use edge. Expectations tagged with a recorded defect "
+    "are skipped in the main run and asserted by the C13.x.api.finding.* obligations behind vrt.Carve. apropos (writes to the "
+    "process' stdout) is not covered. ")
+
 def main():
     quick_h = [[0, 0, 0, 0, 0, 0], [1, 0, 0, 0, 0, 0]]
     for u in (0, 1):
@@ -377,6 +411,15 @@ def main():
                          cases={"quick": ws, "thorough": ws},
                          note="witness history of one open defect as seen by VerifC13XHistory, parameters (region, init, mode, o1..o6): only "
                               "the exact expectations inside that region are asserted, behind vrt.Carve(id, true). " + XNOTE))
+    yall = [[scn, v] for scn in range(len(YNV)) for v in range(YNV[scn])]
+    spec.append(dict(xcommon, id="C13.x.api", entry="VerifC13XApi", reach=["compared"], cases={"quick": yall, "thorough": yall},
+                     note="all scenarios and variants. " + YNOTE))
+    for fid in range(1, len(YIDS)):
+        ws = [[fid, scn, v] for scn, v in YWIT[fid]]
+        spec.append(dict(xcommon, id="C13.x.api.finding." + YIDS[fid][4:], entry="VerifC13XApiFinding", reach=[], carves=[YIDS[fid]],
+                         cases={"quick": ws, "thorough": ws},
+                         note="the scenarios in which one recorded defect shows, parameters (finding, scenario, variant): only the "
+                              "expectations tagged with that finding are asserted, behind vrt.Carve(id, true). " + YNOTE))
     out = sys.argv[1] if len(sys.argv) > 1 else "/verif/harness/obligations.d/C13.json"
     json.dump(spec, open(out, "w"), separators=(",", ":"))
     for s in spec:
